@@ -111,7 +111,12 @@ func (rn *Runner) Open(db *Db) {
 	rn.e = eng.New("d")
 	rn.ctx = rn.e.Ctx()
 	rn.e.MustExec(rn.ctx, db.Setup()...)
-	rn.dbS = db.Sexp()
+	rn.dbS = db.Sexp() + " " + hx.ListOf(append([]string{"setup"}, db.Setup()...), func(s string) string {
+		if s == "setup" {
+			return s
+		}
+		return hx.HexS(s)
+	})
 }
 
 // Exec runs one statement on the current engine.
@@ -127,7 +132,12 @@ func (rn *Runner) Case(q *Query, tys []Ty, ordered bool, p *Printer) (id, obs st
 	if ordered {
 		ord = "1"
 	}
-	payload := fmt.Sprintf("(%s (ordered %s) %s (q %s) (sql %s))", rn.Tag, ord, rn.dbS, q.Sexp(), hx.HexS(text))
+	var feats []string
+	for f := range p.Feats {
+		feats = append(feats, f)
+	}
+	sort.Strings(feats)
+	payload := fmt.Sprintf("(%s (ordered %s) %s (q %s) (feat %s) (sql %s))", rn.Tag, ord, rn.dbS, q.Sexp(), strings.Join(feats, " "), hx.HexS(text))
 	nontrivial := len(res.Rows) > 0 && CountOps(q) >= 2 && rn.Db.HasNull()
 	id = rn.Out.Case(payload, obs, nontrivial)
 	rn.Out.Stat("cases")
